@@ -362,6 +362,7 @@ def oracle_lru(cfg, ops, trace):
     cap = cfg["cap"]
     prev = None
     recency = []        # history recency order (unsync): insert / update / successful get move to MRU
+    last_op = before_last = None
     unsync = cfg["kind"] == "unsync"
     for i, toks, out, state, now in steps(cfg, trace):
         if failed(out):
@@ -417,6 +418,35 @@ def oracle_lru(cfg, ops, trace):
                         need = weigh(cfg, int(toks[1]), int(toks[2]))
                         if sum(w(k) for k in victims[:-1]) >= need:
                             return f"op {i}: admission of weight {need} removed {victims}, a shorter prefix suffices"
+        # concurrent cache, maintenance after every op: an update that grew an admitted entry - the maintenance run
+        # that applies it removes for size exactly the shortest prefix of the recency order (the updated key now
+        # most recent, expired entries purged first) that covers the excess: no more, no fewer
+        if (not unsync) and o == "S" and prev is not None and last_op is not None and before_last is not None \
+                and last_op[0] == "I" and prev.rq == 0 and prev.wq == 1 and before_last.rq == 0 and before_last.wq == 0:
+            k = int(last_op[1])
+            e0 = before_last.map.get(k)
+            if e0 is not None and e0["adm"] and k in prev.map:
+                neww = weigh(cfg, k, int(last_op[2]))
+                wt = {x: (neww if x == k else e["w"]) for x, e in prev.map.items()}
+                expired = {x for x, e in prev.map.items() if expired_s(cfg, e, prev.va, now)}
+                excess = prev.ws - e0["w"] + neww - sum(wt[x] for x in expired) - cap
+                order3 = [x for x in recency if x in prev.map and x not in expired and (prev.map[x]["adm"] or x == k)]
+                if all(prev.map[x]["adm"] for x in prev.map) and set(order3) == set(prev.map) - expired:
+                    exp_victims, freed = [], 0
+                    for x in order3:
+                        if freed >= excess:
+                            break
+                        exp_victims.append(x)
+                        freed += wt[x]
+                    gone = set(prev.map) - set(s.map) - expired
+                    STATS["lru:sync_update_minimality_checked"] += 1
+                    if len(exp_victims) < 500 and gone != set(exp_victims):
+                        return (f"op {i} `S` after `{' '.join(last_op)}`: removed for size {sorted(gone)}, but the shortest "
+                                f"LRU prefix covering the excess {max(excess, 0)} (recency order {order3}, expired purged first: "
+                                f"{sorted(expired)}) is {exp_victims}")
+        if o not in ("Q", "C", "T"):
+            before_last = prev
+            last_op = toks
         # recency order of the history
         if o == "I" or (o == "G" and out != "-"):
             k = int(toks[1])
